@@ -23,7 +23,7 @@ func init() {
 		Technique:        "reference-model monitor: p(point) from coefficient-form interpolation in math/big (independent of the barycentric tables) decides which claimed results must be accepted; independent verifier on a sample",
 		MinEvals:         map[string]int64{"quick": 1500, "thorough": 15000},
 		MinClasses:       map[string]int64{"quick": 300, "thorough": 600},
-		RequiredCounters: []string{"correct_results_accepted", "wrong_results_rejected", "boundary_255_proofs", "boundary_256_proofs", "reference_verifier_decisions"},
+		RequiredCounters: []string{"correct_results_accepted", "wrong_results_rejected", "boundary_255_proofs", "boundary_256_proofs", "reference_verifier_decisions", "error_path_calls_before_honest_ones"},
 		Assumptions:      []string{"the commitment is the library's Commit (C05's subject)", "a random forgery verifying is treated as impossible"},
 		Plan: func(tier string) []Child {
 			return shardsVar(pick(tier, 12, 16), Child{Flavour: "plain", NCPU: 1})
@@ -117,6 +117,12 @@ func runC04(c *mon.Ctx) {
 				if names[pi] == "256" {
 					c.Count("boundary_256_proofs", 1)
 				}
+				// history: verifications (and a proof attempt) that end in an error come first for every third point; their
+				// outcome is judged in C02, here only what they leave behind matters
+				if (pi+p)%3 == 0 {
+					c04poison(env, &comm, pr, lv, zf, rng)
+					c.Count("error_path_calls_before_honest_ones", 1)
+				}
 				nb := new(big.Int).Add(z, bigOne)
 				results := map[string]*big.Int{
 					"correct": correct, "correct+1": ref.AddR(correct, bigOne), "zero": new(big.Int), "neighbour-point": ref.EvalPoly(coeffs, nb),
@@ -200,5 +206,27 @@ func runC04(c *mon.Ctx) {
 			}
 			_ = banderwagon.Identity
 		})
+	}
+}
+
+// c04poison makes calls that must fail cleanly: proofs with too few / too many / no rounds, unequal L and R, a polynomial
+// of the wrong length.
+func c04poison(env *Env, comm *banderwagon.Element, pr ipa.IPAProof, lv []fr.Element, zf fr.Element, rng *rand.Rand) {
+	for k := 0; k < 2; k++ {
+		bad := ipa.IPAProof{A_scalar: pr.A_scalar, L: append([]banderwagon.Element(nil), pr.L...), R: append([]banderwagon.Element(nil), pr.R...)}
+		switch rng.Intn(5) {
+		case 0:
+			bad.L, bad.R = bad.L[:7], bad.R[:7]
+		case 1:
+			bad.L, bad.R = append(bad.L, bad.L[0]), append(bad.R, bad.R[0])
+		case 2:
+			bad.L, bad.R = nil, nil
+		case 3:
+			bad.R = bad.R[:5]
+		default:
+			mon.Try(func() { ipa.CreateIPAProof(common.NewTranscript("c04"), env.Conf, *comm, lv[:255], zf) })
+			continue
+		}
+		mon.Try(func() { ipa.CheckIPAProof(common.NewTranscript("c04"), env.Conf, *comm, bad, zf, pr.A_scalar) })
 	}
 }
